@@ -166,14 +166,16 @@ Definition run_square_maps (i : N) : list N :=
    PieceBoard::new) with from-scratch hashes: p1 e m h d c r side move_no step kind sq piece trapped *)
 Definition state_of_new (l : list N) : option state :=
   match l with
-  | [wp1; we; wm; wh; wd; wc; wr; sd; mv; stp; k; sq; pc; tr] =>
+  | wp1 :: we :: wm :: wh :: wd :: wc :: wr :: sd :: mv :: stp :: k :: sq :: pc :: tr :: extra =>
     match dec_pps k sq pc with
     | Some st =>
       let b := pb_new wp1 we wm wh wd wc wr in
       let gold := negb (sd =? 0) in
       let h := z_from_piece_board b gold stp in
       let h0 := z_from_piece_board b gold 0 in
-      Some (mkstate gold mv (PlayPhase (mkplay (repeat b (N.to_nat stp)) st h0 [h0] (negb (tr =? 0)))) b h)
+      (* optional tail: explicit turn-start hash, then the repetition history oldest first *)
+      let '(ih, hs) := match extra with [] => (h0, [h0]) | x :: r => (x, rev r) end in
+      Some (mkstate gold mv (PlayPhase (mkplay (repeat b (N.to_nat stp)) st ih hs (negb (tr =? 0)))) b h)
     | None => None
     end
   | _ => None
